@@ -51,15 +51,25 @@ theorem C11_counterexample_expires_out_of_range :
     SigV2Spec.credentials ⟨sp!"GET", [], sp!"/bkt/k", qYear10000, none⟩ =
       some ⟨.query, sp!"AK", sp!"c2ln", some 253402300800⟩ := by decide +kernel
 
-/-- finding `signature-double-encoded` (corpus `w-presign-signature-double-encoded`): the value `ab%3D`
-    (what `Signature=ab%253D` decodes to) is compared as `ab=` -/
+/-- repaired (was finding `signature-double-encoded`, corpus `w-presign-signature-double-encoded`): the
+    value `ab%3D` (what `Signature=ab%253D` decodes to) is compared as it stands, as the specification
+    reads it — it used to be percent-decoded a second time and compared as `ab=` -/
 def qDoubleEncoded : Pairs :=
   [(sp!"AWSAccessKeyId", sp!"AK"), (sp!"Signature", sp!"ab%3D"), (sp!"Expires", sp!"1175139620")]
 
-theorem C11_counterexample_signature_double_encoded :
-    (parsePresigned (sortByFirst qDoubleEncoded)).map (·.signature) = some (sp!"ab=") ∧
+theorem C11_repaired_signature_double_encoded :
+    (parsePresigned (sortByFirst qDoubleEncoded)).map (·.signature) = some (sp!"ab%3D") ∧
     (SigV2Spec.credentials ⟨sp!"GET", [], sp!"/bkt/k", qDoubleEncoded, none⟩).map (·.signature) =
-      some (sp!"ab%3D") := by decide +kernel
+      some (sp!"ab%3D") ∧
+    C11.WFV ⟨sp!"GET", [], sp!"/bkt/k", qDoubleEncoded, none⟩ := by decide +kernel
+
+/-- and the verdict on it is the specification's, for every MAC, credential table and clock: the request
+    is inside the region of `C11_verdict_iff_spec_partial` (it was excluded before the repair) -/
+theorem C11_repaired_signature_double_encoded_verdict (hmac : Bytes → Bytes → Bytes) (b64 : Bytes → Bytes)
+    (lookup : Bytes → Option Bytes) (nowNs : Int) (ak : Bytes) (hnow : 0 ≤ nowNs) :
+    check hmac b64 lookup nowNs (ctxOf ⟨sp!"GET", [], sp!"/bkt/k", qDoubleEncoded, none⟩) = .accept ak ↔
+      SigV2Spec.Accepts hmac b64 lookup nowNs ⟨sp!"GET", [], sp!"/bkt/k", qDoubleEncoded, none⟩ ak :=
+  C11.C11_verdict_iff_spec_partial hmac b64 lookup nowNs _ ak hnow (by decide +kernel)
 
 /-- so the full verdict statement is false of the model: a presigned URL for the first second of year
     10000, correctly "signed" for the constant MAC, is accepted by the specification and refused by the
